@@ -4,13 +4,14 @@
 # without the change in a fresh scratch worktree of /repo HEAD, runs the repository's pinned suite with the change,
 # then runs the named checks (quick tier) against the changed tree.  Nothing is applied to /repo itself.
 id=$1; shift
-src=/tmp/wt/$id
-dst=/verif/seeded/$id
+src=${SRC:-/tmp/wt/$id}
+name=${NAME:-$id}
+dst=/verif/seeded/$name
 mkdir -p $dst
 git -C $src diff -- bromelia docs > $dst/patch.diff
 cp $src/demo_$id.py $dst/ 2>/dev/null
 echo "patch lines: $(wc -l < $dst/patch.diff)"
-scratch=/tmp/wt/confirm_$id
+scratch=/tmp/wt/confirm_$name
 git -C /repo worktree remove --force $scratch 2>/dev/null
 git -C /repo worktree add -q --detach $scratch HEAD || exit 1
 cp $dst/demo_$id.py $scratch/
